@@ -9,7 +9,7 @@ use crate::{Error, Result};
 use arrow::compute::filter_record_batch;
 use arrow_array::cast::AsArray;
 use arrow_array::{Array, BooleanArray, RecordBatch};
-use sqlparser::ast::{BinaryOperator, Expr, SetExpr, Statement, Value};
+use sqlparser::ast::{BinaryOperator, Expr, SetExpr, Statement, UnaryOperator, Value};
 use sqlparser::dialect::GenericDialect;
 use sqlparser::parser::Parser;
 use std::sync::Arc;
@@ -386,6 +386,22 @@ impl QueryFilter {
                 }
                 Value::Boolean(b) => Some(PredicateValue::Boolean(*b)),
                 Value::Null => Some(PredicateValue::Null),
+                _ => None,
+            },
+            // Signed numeric literals (`-3`, `+0.5`) are parsed as a unary operator on a number
+            Expr::UnaryOp {
+                op: UnaryOperator::Minus,
+                expr,
+            } => match Self::parse_sql_value(expr)? {
+                PredicateValue::Int64(i) => i.checked_neg().map(PredicateValue::Int64),
+                PredicateValue::Float64(f) => Some(PredicateValue::Float64(-f)),
+                _ => None,
+            },
+            Expr::UnaryOp {
+                op: UnaryOperator::Plus,
+                expr,
+            } => match Self::parse_sql_value(expr)? {
+                value @ (PredicateValue::Int64(_) | PredicateValue::Float64(_)) => Some(value),
                 _ => None,
             },
             _ => None,
